@@ -27,6 +27,9 @@ Fixpoint has_huge (bs : bytes) : bool :=
    of an input that IS one well-formed item is never in this class. *)
 Definition first_item_wf (bs : bytes) : bool := is_ok (parse_one bs).
 
+(* nesting depth of the first data item of an input (0 when it is not well-formed) *)
+Definition input_depth (bs : bytes) : nat := match parse_one bs with Ok (it, _) => item_depth it | _ => O end.
+
 Inductive verdict := Holds | Fails | FailsKnownHuge | FailsKnownPreserved.
 
 (* [cbor_out]: the entry point re-serialises to CBOR (so the bytes must be one well-formed data item);
